@@ -58,7 +58,9 @@ pub(crate) fn parse_comment<'s, 'i>(
     move |i: &mut Input<'i>| {
         (
             comment,
-            line_ending.context(StrContext::Expected(StrContextValue::Description("newline"))),
+            line_ending.context(StrContext::Expected(StrContextValue::Description(
+                "newline",
+            ))),
         )
             .span()
             .map(|span| {
@@ -101,33 +103,28 @@ pub(crate) fn keyval<'s, 'i>(
 
 // keyval = key keyval-sep val
 pub(crate) fn parse_keyval(input: &mut Input<'_>) -> ModalResult<(Vec<Key>, (Key, Item))> {
-    trace(
-        "keyval",
-        (
-            key,
-            cut_err((
-                one_of(KEYVAL_SEP)
-                    .context(StrContext::Expected(StrContextValue::CharLiteral('.')))
-                    .context(StrContext::Expected(StrContextValue::CharLiteral('='))),
-                (
-                    ws.span(),
-                    value,
-                    line_trailing
-                        .context(StrContext::Expected(StrContextValue::CharLiteral('\n')))
-                        .context(StrContext::Expected(StrContextValue::CharLiteral('#'))),
-                ),
-            )),
-        )
-            .try_map::<_, _, std::str::Utf8Error>(|(key, (_, v))| {
-                let mut path = key;
-                let key = path.pop().expect("grammar ensures at least 1");
+    trace("keyval", |input: &mut Input<'_>| {
+        let mut path = key.parse_next(input)?;
+        let (_, v) = cut_err((
+            one_of(KEYVAL_SEP)
+                .context(StrContext::Expected(StrContextValue::CharLiteral('.')))
+                .context(StrContext::Expected(StrContextValue::CharLiteral('='))),
+            (
+                ws.span(),
+                check_dotted_recursion(path.len(), value),
+                line_trailing
+                    .context(StrContext::Expected(StrContextValue::CharLiteral('\n')))
+                    .context(StrContext::Expected(StrContextValue::CharLiteral('#'))),
+            ),
+        ))
+        .parse_next(input)?;
+        let key = path.pop().expect("grammar ensures at least 1");
 
-                let (pre, v, suf) = v;
-                let pre = RawString::with_span(pre);
-                let suf = RawString::with_span(suf);
-                let v = v.decorated(pre, suf);
-                Ok((path, (key, Item::Value(v))))
-            }),
-    )
+        let (pre, v, suf) = v;
+        let pre = RawString::with_span(pre);
+        let suf = RawString::with_span(suf);
+        let v = v.decorated(pre, suf);
+        Ok((path, (key, Item::Value(v))))
+    })
     .parse_next(input)
 }
